@@ -94,6 +94,14 @@ def gen_elements(rng, tier="quick", common_prefix=False):
             "ntype": rng.choice(["int", "int", "int", "int64"])}
 
 
+def gen_interrupt(rng, hi):
+    """An interrupt fault: anywhere in block collection and header construction, or (a third of them) within the
+    first lines of header construction."""
+    if rng.random() < 0.35:
+        return {"kind": "interrupt", "at": rng.randint(1, 40), "where": "header"}
+    return {"kind": "interrupt", "at": rng.randint(1, hi)}
+
+
 def gen_backend(rng, ant, el, big_w=False, wide=False):
     """big_w: hundreds of PFB windows per block (SCALE: multi-pass or chunked paths inside one sub-block only engage
     beyond some number of windows).  wide: many channels per block as well, so that a block exceeds 2**20 samples."""
@@ -417,7 +425,11 @@ def do_record(ctx, backend, stem, op, header=None, use_default_header=False):
     tracer = None
     if fault and fault["kind"] == "interrupt":
         # KeyboardInterrupt / cancellation at an arbitrary line of the recording loop
-        tracer = seams.interrupt_at(["backend.py:collect_data_block", "backend.py:_make_header"], fault["at"])
+        # "where": "header" counts line events inside header construction only, so that small counts land in its few
+        # lines (faults belong inside the operations that create in-flight state, not spread thinly over everything)
+        names = ["backend.py:_make_header"] if fault.get("where") == "header" else \
+            ["backend.py:collect_data_block", "backend.py:_make_header"]
+        tracer = seams.interrupt_at(names, fault["at"])
     try:
         try:
             backend.record(stem, **kwargs)
